@@ -393,6 +393,7 @@ RULES = [
     ("R-C05-cos", 18, "|cos(dtheta)| projection weight", make_c_rule("R-C05-cos")),
     ("R-C05-radial", 55, "q reaches the model as |q| or through the rotation only", make_c_rule("R-C05-radial")),
     ("R-C05-1d", 70, "no orientation member in 1-D / unoriented calls", make_c_rule("R-C05-1d")),
+    ("R-C05-py-qlayout", 4, "Python path: (nq, 2) q buffer written and read by the same columns; default Iqxy evaluates Iq at |q|", _x3.rule_py_qlayout),
     ("R-C05-python", 18, "angle adjacency, offsets, 1-D exclusion, projection constant", rule_python_side),
     ("R-C05-orient-limits", 40, "orientation limits symmetric about zero in every model table", _x3.rule_c05_orient_limits),
     ("R-C05-guard", 8, "sqrt of the in-plane remainder guarded in qac_apply (all symmetric oriented units)", _x3.make_helper_rule("R-C05-guard")),
